@@ -179,8 +179,8 @@ PROPS = {
     "C08": dict(
         kani=["c08_subgroup_keep_drop_bounded", "c08_priority_least_nested_bounded", "c08_priority_most_nested_bounded",
               "c08_priority_top_bottom_bounded"],
-        verus=["partition_tail"],
-        prefixes=["C08.", "C02.partition_tail."],
+        verus=["partition_tail", "subgroup_grouping"],
+        prefixes=["C08.", "C02.partition_tail.", "C06.group."],
         category="proof",
         trust=[],
         design_ref="DESIGN.md §5 C08",
@@ -223,7 +223,7 @@ PROPS = {
     ),
     "C06": dict(
         kani=["c06_rf_over_contract", "c06_rf_under_contract", "c06_group_filter"],
-        verus=["filegroup_counts"],
+        verus=["filegroup_counts", "subgroup_grouping"],
         prefixes=["C06."],
         category="proof",
         trust=[],
@@ -231,8 +231,8 @@ PROPS = {
     ),
     "C14": dict(
         kani=[],
-        verus=["filegroup_counts", "report_header"],
-        prefixes=["C14."],
+        verus=["filegroup_counts", "report_header", "subgroup_grouping"],
+        prefixes=["C14.", "C06.group."],
         category="proof",
         trust=[],
         design_ref="DESIGN.md §5 C14",
